@@ -230,7 +230,7 @@ def describe_history(ops):
 
 # --------------------------------------------------------------------------- exploration
 def explore(prog, runner, rng, tier, sig_base, check_extra=None, budget_runs=None,
-            policies=("sweep",), per_file=False):
+            policies=("sweep",), per_file=False, deadline=None):
     """Run ``prog`` under many schedules and check every execution.
 
     Returns dict(runs, schedules(set of hashes), violations[list], mid_op_switch_runs,
@@ -241,6 +241,14 @@ def explore(prog, runner, rng, tier, sig_base, check_extra=None, budget_runs=Non
     nthreads = len(prog["threads"])
     out = {"runs": 0, "schedules": set(), "violations": [], "sites": set(), "statuses": {},
            "orders_tried": 0, "interleaved_runs": 0, "inconclusive": []}
+
+    import time as _time
+
+    def late():
+        if deadline is not None and _time.time() > deadline:
+            out["cut_by_deadline"] = True
+            return True
+        return False
 
     def one(policy, record_sites=False):
         res, hist, final, extra = runner.run(policy, record_sites=record_sites)
@@ -315,6 +323,8 @@ def explore(prog, runner, rng, tier, sig_base, check_extra=None, budget_runs=Non
                 out["sweep_points"] = out.get("sweep_points", 0) + len(ks)
                 out["solo_path_points"] = out.get("solo_path_points", 0) + len(seq)
                 for k in ks:
+                    if late():
+                        break
                     res = one(sched.PriorityPolicy(order, [(victim, k)]))
                     if res["status"] in ("watchdog", "overrun"):
                         break
@@ -347,6 +357,8 @@ def explore(prog, runner, rng, tier, sig_base, check_extra=None, budget_runs=Non
                         ks = ks[:: 2]
                     out["boundary_points"] = out.get("boundary_points", 0) + len(ks)
                     for k in ks:
+                        if late():
+                            break
                         res = one(sched.PriorityPolicy(order, [(a, bnd + 1), (b, k)]))
                         if res["status"] in ("watchdog", "overrun"):
                             break
